@@ -17,7 +17,7 @@ before the first scanner read, retires losers only after the scan through the jo
 token before publishing a v3 record and the marker token before skipping a retired extent; the writer stamps the
 token with the landing sector. Not decided: that reopened contents are one complete recent generation per key.
 """
-DECIDED = ["(a) intent-journal brackets (retire_extents; process_write_batch is C02.order)", "(b) write layering / who-may-call",
+DECIDED = ["(a) intent-journal brackets (retire_extents and process_write_batch, the latter shared with C02.order)", "(b) write layering / who-may-call",
            "(c) replay-before-scan, token verification before publication, journalled post-scan retirement, token stamping"]
 NOT_DECIDED = ["(d) reopened contents are one complete generation per key and len() matches",
                "value-level slot / generation selection in allocation_journal::decode and read_metadata"]
@@ -219,9 +219,17 @@ def check_losers(ctx):
     C04.check_winner(ctx, "C03.recover/losers")
 
 
+def check_write_batch_bracket(ctx):
+    """the record-batch writer's bracket: intent journal (covering every prepared write, unfiltered) -> data -> fsync/clear ->
+    publication; a torn write of an extent that is not listed cannot be retired by replay and fails the strict v3 scan"""
+    from rules import C02
+    C02.check_order(ctx, "C03.bracket/write_batch")
+
+
 def check(ctx):
     check_losers(ctx)
     check_layer(ctx)
     check_bracket(ctx)
+    check_write_batch_bracket(ctx)
     check_recover(ctx)
     check_stamp(ctx)
